@@ -205,8 +205,87 @@ def ground(e, lo, hi, cache=None):
     return r
 
 
+TERM_COMPLETE = {'LAE', 'EXP'}
+"""uninterpreted functions whose axioms (commutativity, bounds in terms of the arguments) extend from the finitely many
+applications occurring in a query to a total function: instantiating these axioms on the occurring argument tuples
+(closed under the new applications the instances introduce) is complete for satisfiability"""
+
+
+def _ground_apps(es, names):
+    out = {}
+    seen = set()
+
+    def has_var(t):
+        if z3.is_var(t):
+            return True
+        return z3.is_app(t) and any(has_var(c) for c in t.children())
+
+    def walk(t):
+        k = t.get_id()
+        if k in seen:
+            return
+        seen.add(k)
+        if z3.is_quantifier(t):
+            walk(t.body())
+            return
+        if z3.is_app(t):
+            if t.decl().name() in names and t.num_args() > 0 and not has_var(t):
+                out.setdefault(t.decl().name(), {})[t.get_id()] = t
+            for c in t.children():
+                walk(c)
+    for e in es:
+        walk(e)
+    return out
+
+
+def term_instantiate(formulas, rounds=3):
+    """replace every top-level forall over Real variables whose single pattern is f(x1..xn), f in TERM_COMPLETE, by its
+    instances on the ground applications of f occurring in the formulas"""
+    axs, rest = [], []
+    for f in formulas:
+        if (z3.is_quantifier(f) and f.is_forall() and f.num_patterns() == 1 and f.pattern(0).num_args() == 1
+                and f.pattern(0).arg(0).decl().name() in TERM_COMPLETE
+                and all(f.var_sort(i) == z3.RealSort() for i in range(f.num_vars()))
+                and all(z3.is_var(a) for a in f.pattern(0).arg(0).children())):
+            axs.append(f)
+        else:
+            rest.append(f)
+    if not axs:
+        return formulas
+    insts = []
+    done = set()
+    for _ in range(rounds):
+        apps = _ground_apps(rest + insts, TERM_COMPLETE)
+        new = False
+        for ax in axs:
+            pat = ax.pattern(0).arg(0)
+            n = ax.num_vars()
+            for t in apps.get(pat.decl().name(), {}).values():
+                key = (ax.get_id(), t.get_id())
+                if key in done:
+                    continue
+                done.add(key)
+                new = True
+                # de Bruijn: variable index k in the pattern argument list tells which bound variable it is
+                vals = [None] * n
+                for a, v in zip(pat.children(), t.children()):
+                    vals[n - 1 - z3.get_var_index(a)] = v
+                if any(v is None for v in vals):
+                    continue
+                insts.append(z3.substitute_vars(ax.body(), *reversed(vals)))
+        if not new:
+            break
+    return rest + insts
+
+
 def _check_ground(job):
     return _check_z3(job)
+
+
+def _ti(hyps, goal):
+    marker = z3.Not(goal)
+    out = term_instantiate(list(hyps) + [marker])
+    return [h for h in out if h.get_id() != marker.get_id()]
 
 
 def ladder_pass(vcs, todo, axioms_of, ladders, timeout_ms=10000):
@@ -226,6 +305,7 @@ def ladder_pass(vcs, todo, axioms_of, ladders, timeout_ms=10000):
                 cache = {}
                 hyps = [ground(h, -1, hi, cache) for h in list(vc.hyps) + relevant_axioms(vc.hyps, vc.goal, axioms_of.get(vc.func, ()))]
                 goal = ground(vc.goal, -1, hi, cache)
+                hyps = _ti(hyps, goal)
             except ValueError:
                 continue
             smt2 = to_smt2(hyps + pins, goal)
